@@ -2,5 +2,5 @@
 EXTENDS DoubleSign
 \* the history does not influence behaviour: the properties are action properties on the last step
 ViewNoHist == <<log, Len(hist)>>
-SymmetricOnce == (hist = <<>>) => Symmetric
+SymmetricOnce == (hist = <<>>) => (Symmetric /\ UnsignedIrrelevant)
 ====
